@@ -58,7 +58,11 @@ impl LoadBalancer {
 }
 #[verifier::external_body]
 pub struct Notifier { x: u8 }
-impl Notifier { #[verifier::external_body] pub fn notify_waiters(&self) { unimplemented!() } }
+impl Notifier {
+  #[verifier::external_body] pub fn notify_waiters(&self) { unimplemented!() }
+  #[verifier::external_body] pub fn clone(&self) -> Notifier { unimplemented!() }
+  #[verifier::external_body] pub async fn notified(&self) -> (r: ()) { unimplemented!() }
+}
 #[verifier::external_body]
 pub struct Ingress { x: u8 }
 impl Ingress {
@@ -225,32 +229,27 @@ parts = [
             ("R8", re.compile(r"tokio_timeout\(duration, self\.load_balancer\.wait_for_connection\(\)\)\.await"), "self.load_balancer.verif_timed_wait(duration).await", 1),
             ] + guard_rules(["current_state_guard"]),
      loops={0: {"break_value": True}}),
-  Scan(REQ, "send", r"self\.state\b", 2, impl=REQ_IMPL, why="both accesses are inside the extracted function"),
-  # ---- REQ recv(): tokio::select! in the middle (outside Verus); the two critical sections that decide the protocol state are regions
-  Region(REQ, "recv_turn_check", "recv", r"\{\s*\n\s*let op_state_guard = self\.state\.lock\(\);", r"let notifier = self\.reply_available_notifier\.clone\(\);",
-         sig="fn recv_turn_check(&mut self) -> (r: Result<(), ZmqError>)", tail="Ok(())",
-         impl=REQ_IMPL, emit_impl="impl ReqSocket",
-         ensures=[
-           ("C10:recv_check_writes_nothing", "req_no_write(old(self), final(self))"),
-           ("C10:recv_out_of_turn_is_invalid_state", "!(req_first_seen(old(self), final(self)) is ExpectingReply) ==> r matches Err(ZmqError::InvalidState(_))"),
-           ("C10:recv_in_turn_proceeds", "req_first_seen(old(self), final(self)) is ExpectingReply ==> r is Ok"),
-         ],
-         extra=[INVALID] + guard_rules(["op_state_guard"])),
-  Region(REQ, "recv_finish", "recv", r"let mut should_notify = false;", r"(?m)^\s*received_msg_result\s*$",
-         sig="fn recv_finish(&mut self, received_msg_result: &Result<Msg, ZmqError>)",
-         impl=REQ_IMPL, emit_impl="impl ReqSocket", ret=None,
-         ensures=[
-           ("C10:recv_only_transition_is_ExpectingReply_to_ReadyToSend_atomically",
-            "req_no_write(old(self), final(self)) || (req_one_write(old(self), final(self)) && final(self).log@.last().0 is ExpectingReply && final(self).log@.last().1 is ReadyToSend)"),
-           ("C10:partial_reply_keeps_expecting", "(*received_msg_result matches Ok(m) && m.flags.more) ==> req_no_write(old(self), final(self))"),
-           ("C10:complete_reply_in_turn_returns_to_ReadyToSend",
-            "(*received_msg_result matches Ok(m) && !m.flags.more) && req_first_seen(old(self), final(self)) is ExpectingReply ==> req_one_write(old(self), final(self))"),
-           # recorded finding: a recv() that FAILS (timeout, closed peer) also returns the socket to ReadyToSend
-           ("C10:KF_failed_recv_changes_nothing", "*received_msg_result is Err ==> req_no_write(old(self), final(self))"),
-         ],
-         extra=[("R8", "received_msg_result.as_ref().map_or(true, |m| !m.is_more())", "verif_reply_finished(received_msg_result)", 1)] + guard_rules(["state_guard"])),
-  Scan(REQ, "recv", r"self\.state\b", 3, impl=REQ_IMPL, why="turn check region, finish region, and one read-only `matches!(*self.state.lock(), ReqState::ReadyToSend)` inside tokio::select!"),
-  Scan(REQ, "recv", r"matches!\(\*self\.state\.lock\(\), ReqState::ReadyToSend\)", 1, impl=REQ_IMPL, why="the access outside the regions is a read"),
+  # ---- REQ recv() as a whole: its tokio::select! is desugared by R12 (any arm may complete); the read-only state access inside the
+  # select body is an acquisition like any other (the value found is arbitrary up to the rely)
+  Fn(REQ, "recv", impl=REQ_IMPL, emit_impl="impl ReqSocket", sig_sub=SELF_MUT, attrs=ATTRS, await_inv=AWAIT_REQ,
+     ensures=[
+       ("C10:recv_out_of_turn_is_invalid_state_and_changes_nothing",
+        "final(self).seen@.len() > old(self).seen@.len() && !(req_first_seen(old(self), final(self)) is ExpectingReply) ==> (r matches Err(ZmqError::InvalidState(_))) && req_no_write(old(self), final(self))"),
+       ("C10:recv_only_transition_is_ExpectingReply_to_ReadyToSend_atomically",
+        "req_no_write(old(self), final(self)) || (req_one_write(old(self), final(self)) && final(self).log@.last().0 is ExpectingReply && final(self).log@.last().1 is ReadyToSend)"),
+       ("C10:partial_reply_keeps_expecting", "(r matches Ok(m) && m.flags.more) ==> req_no_write(old(self), final(self))"),
+       ("C10:complete_reply_in_turn_returns_to_ReadyToSend",
+        "(r matches Ok(m) && !m.flags.more) && final(self).seen@.len() >= old(self).seen@.len() + 2 && final(self).seen@.last() is ExpectingReply ==> req_one_write(old(self), final(self))"),
+       # recorded finding: a recv() that FAILS (timeout, closed peer) also returns the socket to ReadyToSend
+       ("C10:KF_failed_recv_changes_nothing", "r is Err ==> req_no_write(old(self), final(self))"),
+     ],
+     extra=[INVALID, ("R2", re.compile(r'ZmqError::Internal\(\s*"([^"]*)"\.into\(\)\s*\)'), r'ZmqError::Internal(verif_fmt())', "*", "pre"),
+            ("R8", "self.core.core_state.read().options.rcvtimeo", "self.core.verif_rcvtimeo()", 1),
+            ("R6h", "matches!(*self.state.lock(), ReqState::ReadyToSend)", "{ self.verif_state_acquire(); matches!(self.state, ReqState::ReadyToSend) }", 1),
+            ("R8", "received_msg_result.as_ref().map_or(true, |m| !m.is_more())", "verif_reply_finished(&received_msg_result)", 1),
+            ("R5", "Some(Duration::ZERO)", "Some(Duration::verif_zero())", "+"),
+            ("R6h", re.compile(r"\*self\.state\.lock\(\)\s*=\s*([^;]*);"), r"{ self.verif_state_acquire(); self.verif_state_write(\1); }", "*"),
+            ] + guard_rules(["op_state_guard", "state_guard"])),
   Fn(REQ, "recv_multipart", impl=REQ_IMPL, emit_impl="impl ReqSocket", sig_sub=SELF_MUT, attrs=ATTRS, await_inv=AWAIT_REQ,
      ensures=[
        ("C10:recv_multipart_out_of_turn_is_invalid_state_and_changes_nothing",
@@ -260,7 +259,6 @@ parts = [
        ("C10:KF_failed_recv_multipart_changes_nothing", "r is Err ==> req_no_write(old(self), final(self))"),
      ],
      extra=[INVALID, ("R8", "self.core.core_state.read().options.rcvtimeo", "self.core.verif_rcvtimeo()", 1)] + guard_rules(["state_guard"])),
-  Scan(REQ, "recv_multipart", r"self\.state\b", 2, impl=REQ_IMPL, why="both accesses are inside the extracted function"),
   # ---------------------------------------------------------------- REP
   Item(REP, "struct", "PeerInfo", keep_derive=()),
   Item(REP, "enum", "RepState", keep_derive=()),
@@ -275,7 +273,6 @@ parts = [
         "r is Ok ==> rep_one_write(old(self), final(self)) && final(self).log@.last().0 is ReadyToReceive && final(self).log@.last().1 is ReceivedRequest"),
      ],
      extra=REP_RULES),
-  Scan(REP, "recv", r"self\.state\b", 2, impl=REP_IMPL, why="both accesses are inside the extracted function"),
   Fn(REP, "recv_multipart", impl=REP_IMPL, emit_impl="impl RepSocket", sig_sub=SELF_MUT, attrs=ATTRS, await_inv=AWAIT_REP,
      requires=["!old(self).recv_turn.held@"],
      ensures=[
@@ -286,7 +283,6 @@ parts = [
         "r is Ok ==> rep_one_write(old(self), final(self)) && final(self).log@.last().0 is ReadyToReceive && final(self).log@.last().1 is ReceivedRequest"),
      ],
      extra=REP_RULES),
-  Scan(REP, "recv_multipart", r"self\.state\b", 2, impl=REP_IMPL, why="both accesses are inside the extracted function"),
   # REP send_multipart(): the MORE-flag loop uses iter_mut().enumerate() (outside Verus); the critical section is a region
   Region(REP, "send_take_request", "send_multipart", r"let peer_to_reply_to = \{", r"let conn_iface: Arc<dyn ISocketConnection> = \{",
          sig="fn send_take_request(&mut self) -> (r: Result<PeerInfo, ZmqError>)", tail="Ok(peer_to_reply_to)",
@@ -302,4 +298,6 @@ parts = [
   Scan(REP, "send_multipart", r"self\.state\b", 1, impl=REP_IMPL, why="the only access is inside the region"),
 ]
 
+# Scans only where a REGION is verified (REP send_multipart): for whole functions every access to the state is in the extracted text, and a form of
+# access the R6h rules do not know is a Verus error (undecided), never a silent pass.
 unit = Unit("reqrep", ["C10", "C09"], parts, safety_props=["C10"], notes="REQ/REP lock-step state machines under interference")
